@@ -232,3 +232,46 @@ def rule_evaluators(progs, tier, name="JQEVAL", floor_share=None):
             res.bad("%s:coverage" % name, "only %d of %d (program, input) pairs could be evaluated (floor %.0f%%): the std/crate model no longer covers the evaluators (fail closed)" % (n_ok, total, floor_share * 100))
         res.ok({"programs": len(progs_), "inputs": len(inputs), "pairs_compared": n_ok, "pairs_skipped_unmodelled": n_skip, "programs_not_parsed": n_parse_fail, "workers": jobs})
     return out
+
+
+DATE_PROGRAMS = [
+    'strftime("%A %a %B %b %j %Y")', 'strftime("%Y-%m-%dT%H:%M:%SZ")', 'strftime("%e %u %w %Z %H %I %p %M %S %y %C %d %m")', "mktime", "todate", "gmtime", "gmtime|mktime",
+    "todate|fromdate", 'strptime("%Y-%m-%dT%H:%M:%SZ")?', 'strptime("%A, %B %d, %Y")?', "todateiso8601?", "fromdateiso8601?", "dateadd(\"seconds\"; 1)?", "localtime?", "strflocaltime(\"%A\")?",
+]
+DATE_INPUTS = [
+    "[2015,2,5,23,51,47,-3,63]", "[2015,2,5,23,51,47,-8,-1]", "1425599507", "[2015,13,40,25,61,61,9,400]", '"2015-03-05T23:51:47Z"', "-1e12", "1e18", "[-1,-1,-1,-1,-1,-1,-1,-1]",
+    "[2015,2,5]", "[1e300,0,1,0,0,0,0,0]", '"Thursday, March 05, 2015"', "null", "0.5", "[2015.7,2.2,5.9,23,51,47.5,4.5,63]",
+]
+
+
+def rule_no_panic(progs, tier, name="JQPANIC(dates)", floor_share=0.7):
+    """C30 on the date / time builtins (index tables of weekday and month names, field arithmetic on
+    broken-down times): every program x input through both evaluators; a panic anywhere is the violation
+    (value agreement of the two evaluators is C23's and reported there)."""
+    out = []
+    for cfg, P in progs.items():
+        res = RuleResult(name, cfg)
+        out.append(res)
+        _G.clear()
+        _G.update({"P": P, "inputs": DATE_INPUTS, "name": name})
+        n_ok = n_skip = 0
+        reasons = {}
+        for prog in DATE_PROGRAMS:
+            r = _eval_program(prog)
+            n_ok += r["ok"]
+            n_skip += r["skip"]
+            for k_, c_ in r["skipped"].items():
+                reasons[k_] = reasons.get(k_, 0) + c_
+            for key, msg in r["bad"]:
+                if ":panic:" in key:
+                    res.bad(key, msg)
+        _G.clear()
+        for k_, c_ in sorted(reasons.items(), key=lambda kv: -kv[1])[:8]:
+            res.note("skipped %d pairs: %s" % (c_, k_))
+        total = n_ok + n_skip
+        if total == 0 or n_ok / total < floor_share:
+            res.bad("%s:coverage" % name, "only %d of %d (program, input) pairs could be evaluated (floor %.0f%%) (fail closed)" % (n_ok, total, floor_share * 100))
+        res.cells += n_ok
+        res.engines += 2
+        res.ok({"programs": len(DATE_PROGRAMS), "inputs": len(DATE_INPUTS), "pairs_evaluated": n_ok, "pairs_skipped_unmodelled": n_skip})
+    return out
